@@ -1165,6 +1165,10 @@ def diag_dropped(c, what="constant"):
     c0, c1 = Constant(c.mesh), Constant(c.mesh)
     w0, w1 = Coefficient(Q), Coefficient(Q)
     a = inner(grad(u), grad(v)) * dx
+    if what == "degree":
+        # the off-diagonal term decides the estimated quadrature degree; the diagonal term is not polynomial
+        h3 = Coefficient(c.V("Lagrange", 3))
+        return abs(0.4 - w0) * inner(p_, q) * dx + inner(u, v) * dx + grad(q)[0] * div(u) * ln(3.0 + h3 * h3) * dx
     if what == "constant":
         a += c0 * inner(div(u), q) * dx + c1 * inner(p_, q) * dx
     else:
